@@ -57,12 +57,24 @@ def coal_records(ctx, rng, nid):
             elif nep == 2 and rng.random() < 0.6:
                 kind = 'three_epoch'
 
-            def model(params, ns, pts, hist=hist, asfunc=asfunc):
+            # chains are written either with per-epoch durations or on a running clock (T = epoch end, initial_t = epoch start);
+            # every fourth case is a running-clock chain by construction, alternately on the constant and the time-function path
+            clock = (c % 2 == 1)
+            if c % 4 == 1:
+                kind = 'chain'
+                asfunc = (c % 8 == 5)
+
+            def model(params, ns, pts, hist=hist, asfunc=asfunc, clock=clock):
                 xx = Numerics.default_grid(pts)
                 phi = PhiManip.phi_1D(xx)
+                now = 0.0
                 for ep in hist:
                     nu = ep['nu']
-                    phi = Integration.one_pop(phi, xx, ep['T'], nu=(lambda t, nu=nu: nu) if asfunc else nu)
+                    if clock:
+                        phi = Integration.one_pop(phi, xx, now + ep['T'], nu=(lambda t, nu=nu: nu) if asfunc else nu, initial_t=now)
+                        now = now + ep['T']
+                    else:
+                        phi = Integration.one_pop(phi, xx, ep['T'], nu=(lambda t, nu=nu: nu) if asfunc else nu)
                 return Spectrum.from_phi(phi, ns, (xx,))
             if kind == 'two_epoch':
                 base, params, site = Demographics1D.two_epoch, (hist[0]['nu'], hist[0]['T']), 'Demographics1D.two_epoch'
@@ -71,6 +83,11 @@ def coal_records(ctx, rng, nid):
             else:
                 base, params, site = model, (), 'Integration.one_pop chain'
             f = (Numerics.make_extrap_log_func if log else Numerics.make_extrap_func)(base)
+            if c % 3 != 0:      # the wrapper object is re-used: first a call with another (coarse) grid list of the same length
+                try:
+                    f(params, [n], [40, 50, 60])
+                except Exception:
+                    pass
             runs = []
             for tf in tfs:
                 Integration.timescale_factor = tf
@@ -82,7 +99,7 @@ def coal_records(ctx, rng, nid):
             back = [{'nu': rat(e['nu']), 'T': rat(e['T'])} for e in reversed(hist)]
             recs.append({'id': 'coal-%d' % next(nid), 'op': 'coal', 'site': site,
                          'in': {'n': n, 'hist': back, 'nuanc': '1', 'theta': '1', 'E': exp_table(n, back), 'pts': ptsl, 'log': log,
-                                'asfunc': asfunc, 'kind': kind}, 'out': {'runs': runs}})
+                                'asfunc': asfunc, 'kind': kind + ('/clock' if (clock and kind == 'chain') else ''), 'reused_wrapper': c % 3 != 0}, 'out': {'runs': runs}})
     finally:
         Integration.timescale_factor = old_tf
     return recs
